@@ -64,6 +64,12 @@ def cases(tier, seed):
         out.append(dict(kind="statio", dim=2, n=n, b=b, nb=12, bb=[3, 1, 2][n % 3], seed=k, draws=d, jit=True))
         out.append(dict(kind="ode", n=nt, b=bt, seed=k, draws=draws(nt, bt) + 1, jit=True))
         out.append(dict(kind="ode", n=nt, b=bt, rar=True, nstart=max(1, nt - 2), seed=k, draws=draws(nt, bt) + 1, jit=True))
+    # a start count (n_start / nt_start) given WITHOUT the refinement option: it has no meaning and every stored point is served
+    for (n, b, ns) in ((6, 2, 3), (5, 2, 2), (4, 4, 1)):
+        k = sd + 9000 + 10 * n + ns
+        out.append(dict(kind="ode", n=n, b=b, stray_nstart=ns, seed=k, draws=draws(n, b) + 1))
+        out.append(dict(kind="statio", dim=1 + n % 2, n=n, b=b, nb=None, bb=None, stray_nstart=ns, seed=k, draws=draws(n, b) + 1))
+        out.append(dict(kind="nonstatio", dim=1, n=n, b=b, nb=None, bb=None, nt=n, bt=b, stray_nstart=ns, seed=k, draws=draws(n, b) + 1))
     # stores with an active RAR probability mask (active prefix nstart < n)
     M = 4 if tier == "quick" else 6
     for n in range(2, M + 1):
